@@ -140,7 +140,10 @@ def judge (g : Graph) (i o : Json) : Option String :=
       | some k => some s!"job launched for {k.1}/{k.2}, which no start task leads to"
       | none =>
         if !finished then none else
-        match starts.find? fun k => k.1 ≤ upper g && ((g.task? k.2).bind (·.inst? k.1)).isSome && !ran.contains k with
+        let auto := lastStop o == some "AUTOMATIC"
+        let limit : Int := ((obsList o).getLast?.bind fun ob => jIntField? ob "rl").getD g.start
+        match starts.find? fun k => k.1 ≤ upper g && ((g.task? k.2).bind (·.inst? k.1)).isSome && !ran.contains k &&
+            (auto || k.1 ≤ limit) with
         | some k => some s!"never-ran: start task {k.1}/{k.2} was never run"
         | none => none
 
